@@ -1,8 +1,57 @@
 import Genshi.Wire
+import Genshi.WireCore
+import Genshi.Model.OutputPipeline
 namespace Driver.C09
-open Genshi
+open Genshi Genshi.Output Genshi.Sexp
 
-/-- stub: the model driver for C09 is not built yet -/
-def handle : List Sexp → Option Sexp := fun _ => none
+def method? : Sexp → Option Method
+  | .atom "xml" => some .xml
+  | .atom "xhtml" => some .xhtml
+  | .atom "html" => some .html
+  | _ => none
+
+/-- `N` | `( name s… )` | `( tuple name pubid|N sysid|N )`; outer `none` = unknown name -/
+def doctype? : Sexp → Option (Option DocTypeT)
+  | .atom "N" => some none
+  | .list [.atom "name", .str n] => (docTypeGet n).map some
+  | .list [.atom "tuple", .str n, p, s] => do
+      let p ← optStr? p; let s ← optStr? s; pure (some (n, p, s))
+  | _ => none
+
+def okStream (m : Method) (cfg : Cfg) (s : Stream) : Bool :=
+  match filtered m cfg s with
+  | some fs => fs.all feOk
+  | none => false
+
+def handle : List Sexp → Option Sexp
+  -- render <method> <strip> <cache> <drop_xml_decl> <doctype> <stream>
+  | [.atom "render", m, strip, cache, dropd, dt, s] => do
+      let m ← method? m
+      let strip ← strip.toBool?; let cache ← cache.toBool?; let dropd ← dropd.toBool?
+      let s ← streamOfSexp? s
+      match doctype? dt with
+      | none => pure (.atom "unmodelled")
+      | some dt =>
+        let cfg : Cfg := { strip := strip, cache := cache, doctype := dt, dropXmlDecl := dropd }
+        if !okStream m cfg s then pure (.atom "unmodelled") else
+        match render m cfg s with
+        | some out => pure (.list [.atom "ok", .str out])
+        | none => pure (.atom "unmodelled")
+  -- spec <method> <drop_xml_decl> <stream>: serSpec over the filtered stream (strip off, no doctype)
+  | [.atom "spec", m, dropd, s] => do
+      let m ← method? m
+      let dropd ← dropd.toBool?
+      let s ← streamOfSexp? s
+      let cfg : Cfg := { strip := false, cache := false, dropXmlDecl := dropd }
+      if !okStream m cfg s then pure (.atom "unmodelled") else
+      match filtered m cfg s with
+      | some fs => pure (.list [.atom "ok", .str (serSpec m ⟨dropd⟩ {} fs).flatten])
+      | none => pure (.atom "unmodelled")
+  | [.atom "wsnorm", .str s] => some (.str (wsNorm s))
+  | [.atom "doctypeget", .str n] =>
+      match docTypeGet n with
+      | some (a, b, c) => some (.list [.str a, optStr b, optStr c])
+      | none => some (.atom "N")
+  | _ => none
 
 end Driver.C09
